@@ -21,12 +21,17 @@ def comp_job(module, cls, cfg):
                 return {"cls": cls, "cfg": cfg, "loop": None}
             except tsx.CombLoop as e:
                 return {"cls": cls, "cfg": cfg, "loop": str(e)[:300]}
-    top, ports, xin, xobs, ctx = h._construct()
+    try:
+        top, ports, xin, xobs, ctx = h._construct()
+    except Exception as e:      # the library refuses to build a well-formed design (every harness builds on the unchanged tree)
+        return {"cls": cls, "cfg": cfg, "loop": None, "elab": f"{type(e).__name__}: {str(e)[:200]}"}
     try:
         tsx.check_comb_cycles(top)
         return {"cls": cls, "cfg": cfg, "loop": None}
     except tsx.CombLoop as e:
         return {"cls": cls, "cfg": cfg, "loop": str(e)[:300]}
+    except Exception as e:
+        return {"cls": cls, "cfg": cfg, "loop": None, "elab": f"{type(e).__name__}: {str(e)[:200]}"}
     finally:
         ctx.__exit__(None, None, None)
 
@@ -75,6 +80,9 @@ def run(rep, tier):
         rep.evaluations += 1
         if r["loop"]:
             rep.violation(where=r["cls"], cfg=r["cfg"], clause="comb_loop: " + r["loop"], path=None,
+                          replay={"kind": "e1", "module": "checks." + r["cls"], "cls": r["cls"], "cfg": r["cfg"], "path": []})
+        elif r.get("elab"):
+            rep.violation(where=r["cls"], cfg=r["cfg"], clause="elaboration: the design does not elaborate: " + r["elab"], path=None,
                           replay={"kind": "e1", "module": "checks." + r["cls"], "cls": r["cls"], "cfg": r["cfg"], "path": []})
     rep.nontrivial = rep.counters.get("designs_accepted", 0)
     return {"designs": 1000, "designs_accepted": 500, "component_harnesses": 50}
